@@ -274,6 +274,11 @@ def _corpus_families(big):
         out.append({"factors": [c, one], "block": {"k": "repeat", "cs": [{"k": "MinimumTrials", "n": 2 * blk_n}],
                     "b": {"k": "cross", "design": [0, 1], "crossing": [1], "rcc": True,
                           "cs": [{"k": "MinimumTrials", "n": blk_n}, {"k": "AtLeastKInARow", "n": 3, "f": 0, "l": 0}]}}})
+    # the same for ExactlyKInARow(2): a run that ends a window must be complete in *every* repetition, not only the last
+    for blk_n in (3, 4):
+        out.append({"factors": [c, one], "block": {"k": "repeat", "cs": [{"k": "MinimumTrials", "n": 2 * blk_n}],
+                    "b": {"k": "cross", "design": [0, 1], "crossing": [1], "rcc": True,
+                          "cs": [{"k": "MinimumTrials", "n": blk_n}, {"k": "ExactlyKInARow", "n": 2, "f": 0, "l": 0}]}}})
     # POST_PREAMBLE, crossings with different preambles in both orders, and a constraint scoped to the block's window
     # (which starts at trial 0 and includes the unified preamble)
     out.mark()
@@ -388,6 +393,13 @@ def _corpus_families(big):
               "levels": [{"name": "A", "w": 1, "table": tbl}, {"name": "B", "w": 1, "table": [1 - x for x in tbl]}]}
         for cs in ([], [{"k": "MinimumTrials", "n": 3}], [{"k": "AtMostKInARow", "n": 1, "f": 2, "l": 0}]):
             out.append({"factors": [col, srcw, wf], "block": {"k": "cross", "design": [0, 1, 2], "crossing": [0], "rcc": True, "cs": cs}})
+    # ... and with the window factor in the crossing, where its start sets the preamble (trial count)
+    for width, start in ((1, 2), (2, 3), (2, 0), (1, 1)):
+        size = 3 ** width
+        tbl = [1 if (i % 3) == 1 else 0 for i in range(size)]
+        wf = {"id": 2, "name": "f2", "window": {"deps": [1], "width": width, "stride": 1, "start": start, "kind": "window"},
+              "levels": [{"name": "A", "w": 1, "table": tbl}, {"name": "B", "w": 1, "table": [1 - x for x in tbl]}]}
+        out.append({"factors": [col, srcw, wf], "block": {"k": "cross", "design": [0, 1, 2], "crossing": [0, 2], "rcc": True, "cs": []}})
     # early explicit starts whose level depends on *whether* the oldest window position exists (None before trial 0),
     # for an implied factor, a constrained one and a crossed one
     src2 = _sf(1, ["x", "y"])
@@ -672,6 +684,57 @@ def _corpus_families(big):
             out.append({"factors": [o, i1, i2], "block": {"k": "nest", "cs": [], "align": None,
                         "outer": {"k": "cross", "design": [0], "crossing": [0], "rcc": True, "cs": ocs},
                         "inner": {"k": "cross", "design": [10, 11], "crossing": [10], "rcc": True, "cs": ics}}})
+    out.mark()
+    # a window over TWO factors with an early explicit start (BeforeStart alternatives for each factor's older
+    # positions), kept in the encoding by a constraint or by the crossing
+    tc, ts = _sf(0, ["r", "g"]), _sf(1, ["x", "y"])
+    for width, start in ((2, 0), (3, 1)):
+        size = 9 ** width
+        def _digits(k, n=2 * width):
+            ds = []
+            for _ in range(n):
+                ds.append(k % 3)
+                k //= 3
+            return ds[::-1]
+        tbl = [1 if (sum(_digits(k)) % 2 == 1) else 0 for k in range(size)]
+        wf2 = {"id": 2, "name": "f2", "window": {"deps": [0, 1], "width": width, "stride": 1, "start": start, "kind": "window"},
+               "levels": [{"name": "keep", "w": 1, "table": tbl}, {"name": "drop", "w": 1, "table": [1 - x for x in tbl]}]}
+        out.append({"factors": [tc, ts, wf2], "block": {"k": "cross", "design": [0, 1, 2], "crossing": [0, 1], "rcc": True,
+                    "cs": [{"k": "AtMostKInARow", "n": 2, "f": 2, "l": 0}]}})
+        out.append({"factors": [tc, ts, wf2], "block": {"k": "cross", "design": [0, 1, 2], "crossing": [0, 1], "rcc": True,
+                    "cs": [{"k": "ExactlyK", "n": 2, "f": 2, "l": 1}]}})
+    # two within-trial derived factors in one crossing together with all of their sources (the crossing is incomplete:
+    # only the consistent combinations occur)
+    qa, qb = _sf(0, ["a1", "a2"]), _sf(1, ["b1", "b2"])
+    qd1 = {"id": 2, "name": "f2", "window": {"deps": [0], "width": 1, "stride": 1, "start": None, "kind": "within"},
+           "levels": [{"name": "isa1", "w": 1, "table": [0, 1, 0]}, {"name": "nota1", "w": 1, "table": [0, 0, 1]}]}
+    qd2 = {"id": 3, "name": "f3", "window": {"deps": [1], "width": 1, "stride": 1, "start": None, "kind": "within"},
+           "levels": [{"name": "isb1", "w": 1, "table": [0, 1, 0]}, {"name": "notb1", "w": 1, "table": [0, 0, 1]}]}
+    for crossing in ([0, 1, 2, 3], [2, 3, 0, 1], [0, 2, 3]):
+        out.append({"factors": [qa, qb, qd1, qd2], "block": {"k": "cross", "design": [0, 1, 2, 3], "crossing": crossing,
+                    "rcc": False, "cs": []}})
+    out.mark()
+    # stride 2 with an explicit start other than the automatic one (finding F33): the k-th application reads the window
+    # ending at trial start + 2k; kept in the encoding by ExactlyK (run-length constraints on strided factors are
+    # outside the documented meaning)
+    s_col = _sf(0, ["r", "g"])
+    for width, start, n in ((1, 1, 4), (2, 2, 5), (2, 0, 4), (2, 3, 6), (1, 2, 5)):
+        size = 3 ** width
+        t0 = [1 if k % 3 == 1 else 0 for k in range(size)]
+        wf = {"id": 1, "name": "f1", "window": {"deps": [0], "width": width, "stride": 2, "start": start, "kind": "window"},
+              "levels": [{"name": "isr", "w": 1, "table": t0}, {"name": "notr", "w": 1, "table": [1 - x for x in t0]}]}
+        out.append({"factors": [s_col, wf], "block": {"k": "cross", "design": [0, 1], "crossing": [0], "rcc": True,
+                    "cs": [{"k": "MinimumTrials", "n": n}, {"k": "ExactlyK", "n": 1, "f": 1, "l": 0}]}})
+    # Nest whose outer block crosses a window factor with an early explicit start (finding F34)
+    na0, nb0 = _sf(0, ["1", "2"]), _sf(10, ["x", "y"])
+    for width in (3, 2):
+        top = 3 ** (width - 1)
+        tp = [1 if (k // top) != 0 and (k // top) == (k % 3) else 0 for k in range(3 ** width)]
+        wf = {"id": 1, "name": "f1", "window": {"deps": [0], "width": width, "stride": 1, "start": 0, "kind": "window"},
+              "levels": [{"name": "p", "w": 1, "table": tp}, {"name": "q", "w": 1, "table": [1 - x for x in tp]}]}
+        out.append({"factors": [na0, wf, nb0], "block": {"k": "nest", "cs": [], "align": None,
+                    "outer": {"k": "cross", "design": [0, 1], "crossing": [0, 1], "rcc": True, "cs": []},
+                    "inner": {"k": "cross", "design": [10], "crossing": [10], "rcc": True, "cs": []}}})
     return out
 
 
